@@ -146,7 +146,9 @@ prop("C02",
           "datagrams of two concurrently running handshakes. Oracle: the receiver must not complete (client Handshake() errors; "
           "no established server session / accepted handle for the flow; only the sender of the final ClientAuth may complete). "
           "Every batch starts and ends with an honest handshake that must complete with equal session ids and keys, distinct "
-          "directional keys and a data message each way; all session keys of the run must be pairwise distinct. Non-trivial = a "
+          "directional keys and a data message each way; all session keys of the run must be pairwise distinct. "
+          "Further families: bit flips at a stride over whole messages, truncation repeated thousands of times per message (the receive buffer keeps the tail of earlier datagrams), and servers whose handshake timer fires at once - in a bubble and, every third repetition, on the real clock, where the timer can beat a message that is being processed; whatever then completes on both sides must carry the same identifier and keys. "
+          "Non-trivial = a "
           "tampered datagram that was actually delivered and whose outcome was observed; distinct by (mode, message, kind, offset, mask, length).",
      level_text="Exhaustive fault enumeration over byte positions and truncation lengths of every handshake datagram as actually "
                 "produced (masks sampled in quick, widened in thorough), plus replacement/swap splices; outcome observed "
@@ -190,7 +192,9 @@ prop("C19",
           "time); only the unmodified control may produce a ServerAuth or grow the tables. (c) a hidden-mode server is sent every "
           "discoverable message, a hidden request built for another KEM key, truncations, bit flips, junk with every message "
           "type byte, and the valid request after the freshness window (stale, from its own and a foreign address); the wire log "
-          "must show no datagram from the server except for the fresh control request. Non-trivial = a stimulus delivered to "
+          "must show no datagram from the server except for the fresh control request. "
+          "Further families: cookies minted by another server instance, across one and two key rotations, and acknowledgements the harness builds itself (verif export) with a consistent transcript over a key that differs from the hello's key in its first or last bytes, in one bit, or altogether. "
+          "Non-trivial = a stimulus delivered to "
           "the server whose reaction (tables, emitted datagrams) was observed; distinct by (repetition, stimulus).",
      level_text="Enumeration of cookie-binding and hidden-silence stimuli against the real server on a simulated wire, observed "
                 "through the wire log and white-box table sizes; hello floods by exploration.",
@@ -214,7 +218,9 @@ prop("C03",
           "2Max-1,2Max,2Max+1,3Max+17,5Max,random on a quiet session; 2-8 concurrent writers on one end. Online oracle on every "
           "returned message (written on that session+direction, byte-identical, at most once), completeness in the faithful and "
           "additive phases, sessions not closed, probes delivered; offline on the wire log: packet counters pairwise distinct per "
-          "(session, sender), no plaintext marker / SNI / certificate window in any datagram. Race detector on. Non-trivial = a "
+          "(session, sender), no plaintext marker / SNI / certificate window in any datagram. Race detector on. "
+          "Further families: recorded datagrams replayed at chosen distances behind the newest counter while packets are held back to the window edge, tampering chosen by datagram size, read buffers shorter than the message, and every shape of client handshake limit (time-out, absolute deadline, both, neither) followed by traffic long after it on a simulated socket that honours an expired read deadline; a case that stalls a bubble is re-executed in real time. "
+          "Non-trivial = a "
           "schedule / size / writer case that ran to the end with every delivered message judged; distinct by case index.",
      level_text="Exploration of seeded datagram-level adversary schedules against the real transport with online per-message "
                 "monitors and offline wire-log monitors; exhaustive over the listed size grid.",
@@ -236,7 +242,9 @@ prop("C15",
           "address, bit-flipped copy of a genuine packet from a third address delivered before the original, exact replay from a "
           "third address, old replay, replay older than the 448-packet window, forged control/close packet. Steps are separated "
           "by synctest quiescence. After every step the following endpoint writes one message; oracle: its destination on the "
-          "wire (and the white-box remoteAddr) equals the source of the latest genuine, first-delivered packet. Non-trivial = a "
+          "wire (and the white-box remoteAddr) equals the source of the latest genuine, first-delivered packet. "
+          "Further families: bursts across replay-window blocks, a follower whose receive queue is full, writes queued behind a held socket write, roaming under continuous sending (real time), and IPv6 addresses that keep the port of the current address and differ from it in the address alone. "
+          "Non-trivial = a "
           "history that ran to the end with every step judged; distinct by (role, step sequence).",
      level_text="Exploration of seeded roaming/abuse histories against the real transport on a simulated wire in virtual time, "
                 "with a wire-log oracle whose ground truth (which delivery was genuine and fresh) is known by construction.",
@@ -260,7 +268,9 @@ prop("C10",
           "valid messages, hidden-request shapes, random strings; plus real handshakes naming hostile server names (empty, '*', "
           "252 bytes, every id type). Oracle: no goroutine panics (process death is attributed to the batch), and after every "
           "batch of <=64 datagrams the established session still carries a message each way and an honest handshake from a fresh "
-          "address completes and carries a message each way. Non-trivial = a datagram consumed by a live endpoint before a probe "
+          "address completes and carries a message each way. "
+          "Further families: length fields inside the encrypted certificate vectors set in flight by XOR, half-open session ids, and real clients naming unknown and known hosts with every kind of identifier type byte against a server built by hopserver.NewHopServer (host blocks only) on a loopback UDP socket, followed by a control handshake that must succeed. "
+          "Non-trivial = a datagram consumed by a live endpoint before a probe "
           "that was judged.",
      level_text="Fault enumeration (truncations and type x length grid of every message type) plus seeded mutation/random "
                 "exploration against the real endpoints in virtual time, with liveness probes after every short batch; checkptr build.",
@@ -309,7 +319,9 @@ prop("C09",
           "creator and kind; every opened tube offered by the peer's Accept exactly once with the opener's id, reliability and type, "
           "and nothing else offered; every byte read on a reliable instance is the next byte of that instance's stream (foreign "
           "bytes classified: predecessor-same-id / other-tube / unknown); every unreliable message equals one written message of "
-          "that instance. Non-trivial = a tube instance that was opened, matched with the peer's Accept and carried checked data (unique per case and instance).",
+          "that instance. "
+          "Further families: id exhaustion, accept backlog, and late data frames of a long-lived predecessor (frame numbers 1100-1800, far beyond a fresh tube's 1000-frame receive window) delivered to the successor that reused the id, whose own stream of more than that many frames must arrive unaltered. "
+          "Non-trivial = a tube instance that was opened, matched with the peer's Accept and carried checked data (unique per case and instance).",
      level_text="Exploration of concurrent open/transfer/close/reopen histories with per-instance keyed data and an adversary that "
                 "replays frames of closed instances, in virtual time with the race detector.",
      level_note="Unreliable messages may be lost or reordered (never judged for completeness). Frames carry no tube incarnation: "
@@ -333,7 +345,9 @@ prop("C11",
           "authgrants.ReadIntentRequest/ReadIntentCommunication/ReadConfOrDenial/ReadTargetInfo/ReadResponse, common.ReadString, "
           "portforwarding.readPacket are fed valid encodings, prefixes followed by end of input, boundary length fields, byte "
           "mutations, random strings; oracle: the decoder returns, or blocks only while awaiting more input and returns once the "
-          "input ends, and TotalAlloc grows by at most 256 KiB + 64 x input length. Non-trivial = an injected frame consumed before a "
+          "input ends, and TotalAlloc grows by at most 256 KiB + 64 x input length. "
+          "Further families: a peer repeating one acknowledgement far beyond the duplicate-ack limit; every decoder's first sixteen bytes walked through the values around an enumeration's range (intents carry a real delegate certificate); set-up, data and acknowledgement frames for opened-and-closed (still registered) tubes of both kinds arriving while Muxer.Stop runs, with seeded sleeps at the instrumented points or a reaper that is slow to unregister closed tubes (real time). "
+          "Non-trivial = an injected frame consumed before a "
           "judged progress/stop check, or a decoder input whose outcome was observed; distinct by construction or by input bytes.",
      level_text="Exploration with enumerated boundary grids against the real muxers (virtual time, race detector) and the real "
                 "application decoders, with liveness/progress/termination and allocation monitors.",
@@ -357,7 +371,9 @@ prop("C16",
           "10 s (virtual) after the later Stop was issued; no panic; after both Stops returned no goroutine of the bubble is left "
           "inside the tubes package (stack scan after 8 virtual s, and the bubble's own leak/deadlock detection); Write fails after "
           "the local Close returned; bytes read are always the peer's stream; after WaitForClose returned Read gives buffered data "
-          "then io.EOF only. A bubble stall is re-executed in real-time mode and judged by the two-dump rule. Non-trivial = an "
+          "then io.EOF only. A bubble stall is re-executed in real-time mode and judged by the two-dump rule. "
+          "Further families: a network that is dead from the first datagram, transport writes that fail while reads go on, tubes requested around the Stop instant, a duplicate-ack storm followed by close (with the muxers' idle time-out near and far), and second copies of set-up frames arriving in trains across the few milliseconds a Stop takes. "
+          "Non-trivial = an "
           "execution with a distinct interleaving signature (hash of the observed order of hook points).",
      level_text="Exploration of programs x schedules x loss patterns with the race detector, virtual-time bounded-termination "
                 "monitors, goroutine-leak scan and post-close API contract checks.",
